@@ -29,7 +29,11 @@ TIMEOUT = {"quick": 1200, "thorough": 7200}
 
 def cases(tier, seed):
     n = 96 if tier == "quick" else 2000
-    return [{"D": 2 if i % 4 else 3} for i in range(n)]
+    out = [{"D": 2 if i % 4 else 3} for i in range(n)]
+    # whole architectures as a workload: every ConvContract call inside a real model run (U-Net upsampling with M=2
+    # filters and image dilation, dilated ResNet convolutions, mixed bias modes) is checked by the same R-monitor
+    out += [{"D": 2 if i % 5 else 3, "kind": "model"} for i in range(4 if tier == "quick" else 60)]
+    return out
 
 
 class LayerMonitor:
@@ -130,6 +134,8 @@ def run(case, ctx):
 
     rng = rng_for(ctx["seed"], ID, case["i"])
     D = case["D"]
+    if case.get("kind") == "model":
+        return run_model(case, ctx, rng)
     cfg = mlgen.gen_layer_cfg(rng, D, allow_stride=True)
     key = {k: cfg[k] for k in ("D", "M", "in_sig", "out_sig", "drop", "bias", "padding", "lhs", "rhs", "stride", "torus", "sp")}
     viols, evals = [], 0
@@ -155,6 +161,31 @@ def run(case, ctx):
     return result(key, viols[:3], contrib >= 2, evals=evals, obs={"layer_calls_checked": evals},
                   hist={"D": D, "M": cfg["M"], "bias": str(cfg["bias"]), "pad_kind": cfg["pad_kind"] + ("+lhs" if cfg["lhs"] else ""), "torus_kind": cfg["torus_kind"], "partial_bank": cfg["drop"] is not None, "stride": str(cfg["stride"] == 1)},
                   sample={"cfg": key})
+
+
+def run_model(case, ctx, rng):
+    import contextlib
+    import io
+
+    D = case["D"]
+    cfg = mlgen.gen_model_cfg(rng, D, stable_only=False)
+    key = {k: cfg[k] for k in ("cls", "D", "in_sig", "out_sig", "depth", "num_blocks", "num_conv", "num_downsamples", "activation", "norm", "bias", "torus", "N")}
+    viols = []
+    _mon.take()
+    before = _mon.checked
+    try:
+        with contextlib.redirect_stdout(io.StringIO()):
+            stable, _, notes = mlgen.type_flow(cfg)
+            model = mlgen.perturb(mlgen.build_model(cfg, case["i"]), rng, 0.3)
+            x = mlgen.random_multi(rng, mlgen.sig_of(cfg["in_sig"]), D, tuple(cfg["N"]), tuple(cfg["torus"]))
+            model(x)
+    except Exception as e:
+        if not any("U-Net skip concat" in n for n in notes):
+            viols.append(viol(f"model-exception-{type(e).__name__}", f"{type(e).__name__}: {str(e)[:200]}; {key}"))
+    viols += _mon.take()
+    n = _mon.checked - before
+    return result({"kind": "model", **key}, viols[:3], n >= 2, evals=n, obs={"layer_calls_checked": n, "layer_calls_inside_models": n},
+                  hist={"D": D, "M": "model:" + cfg["cls"], "bias": str(cfg["bias"]), "pad_kind": "model", "torus_kind": "model", "partial_bank": not stable, "stride": "True"}, sample={"cfg": key, "convcontract_calls_checked": n})
 
 
 def finalize(tier, results, obs, hist, metas):
